@@ -341,9 +341,40 @@ def r7(ctx, facts):
     r.instance("new_from_raw_bytes:some-iff-more", found >= 2 and good, "new_from_raw_bytes must map Some(bytes) to HasMorePages and None to NoMorePages", nb.span)
 
 
+def r8(ctx, facts):
+    """retries of one page may go to every target of the policy's plan: the per-page plan drops nothing but the coordinator that is tried first"""
+    r = ctx.rule("R8", "the per-page plan keeps every target of the load-balancing plan except the pre-selected coordinator (a retried page can reach a healthy node)", floor=1)
+    from ..util import closure_family, dj_of
+    top = facts.one(r"^scylla::client::pager::PagingExecutor::fetch_one_page::\{closure#0\}$")
+    n = 0
+    for b in closure_family(facts, top):
+        if b.kind != "Closure":
+            continue
+        peq = [c for c in b.calls_to("::ptr_eq")]
+        if not peq:
+            continue
+        dj = dj_of(b, facts)
+        for bb in sorted(b.live_blocks):
+            for j, st in enumerate(b.stmts(bb)):
+                if not (st[0] == "A" and st[1][0] == 0 and not st[1][1]):
+                    continue
+                e = dj.expr_of_rvalue(st[2])
+                for stt in dj.states_before_stmt(bb, j):
+                    if not any(in_set(stt.get(("call", c.bb)), {0}) for c in peq):
+                        continue
+                    n += 1
+                    v = dj.eval_in(stt, e)
+                    r.instance("other-nodes-stay-in-the-plan", v == 1,
+                               "the filter over the load-balancing plan answers %s for a target on a node that is NOT the previous page's coordinator: the plan of pages 2.. shrinks to the coordinator itself, "
+                               "so a page whose coordinator fails is retried on the same node and the stream ends with an error although healthy nodes were available" % ("false" if v == 0 else "an unknown value"), b.stmt_span(st))
+    # a return value produced directly by a call
+    if n == 0:
+        raise AnchorLost("fetch_one_page: no plan filter comparing targets with the stable coordinator (Arc::ptr_eq) found")
+
+
 def check(ctx):
     facts = inline_view(ctx.facts("default"))
-    for fn in (r1, r2, r3, r4, r5, r6, r7):
+    for fn in (r1, r2, r3, r4, r5, r6, r7, r8):
         try:
             fn(ctx, facts)
         except AnchorLost as ex:
